@@ -1772,7 +1772,7 @@ impl<'a, 'b> Gen<'a, 'b> {
 
     /// forms that deliberately hit known deviations (probe rate, tagged)
     fn probe_form(&mut self, d: usize) -> Sx {
-        if self.c.chance(self.cfg.probe_qq_vector_twice.saturating_mul(20)) {
+        if self.c.chance(self.cfg.probe_qq_vector_twice) {
             self.features.insert("qq-vector-evaluated-twice");
             let e = self.gen(&Ty::Int, 1);
             // a procedure whose body is a quasiquoted vector, called twice
